@@ -1,11 +1,11 @@
 """C16 -- leading zeros are kept, zeros never attach after a number (DESIGN.md section 3, C16)."""
 import vlib
-from checks import spell, streams
+from checks import spell, streams, scanner_mc
 
 
 def run(ctx):
     q = ctx.quick()
-    vlib.model_check(ctx, "MC_Spell", "MC_Spell_quick.cfg" if q else "MC_Spell_thorough.cfg", workers=8 if q else 14, heap="6g")
+    scanner_mc.spell_mc(ctx)
     prm = dict(kind="zeros", upto=1500 if q else 100000, rlow=[0, 1, 7, 10, 21, 80, 100, 101, 181, 999] if q else spell.RQUICK_LOW,
                rhigh=[0, 1, 2, 21, 100] if q else spell.RQUICK_HIGH, randn=1500 if q else 100000, seed=ctx.seed % 100000)
     spell.run_kind(ctx, "C16", "Gen_Spell", prm,
